@@ -30,6 +30,13 @@ Fixpoint insert_by {A} (leb : A -> A -> bool) (x : A) (l : list A) : list A :=
 Fixpoint isort {A} (leb : A -> A -> bool) (l : list A) : list A :=
   match l with [] => [] | x :: r => insert_by leb x (isort leb r) end.
 
+Fixpoint texts_eqb (a b : list text) : bool :=
+  match a, b with
+  | [], [] => true
+  | x :: a', y :: b' => text_eqb x y && texts_eqb a' b'
+  | _, _ => false
+  end.
+
 Definition sorted_texts (l : list text) : list text := isort text_leb l.
 
 Fixpoint assoc {B} (k : text) (l : list (text * B)) : option B :=
@@ -250,7 +257,7 @@ Fixpoint eval_pred (rq : request) (p : pred) : bool :=
       end
   | PPhysPath val =>
       q_has_name rq &&
-      (if list_eq_dec text_eq_dec (rev (map fst (q_lineage rq))) val then true else false)
+      texts_eqb (rev (map fst (q_lineage rq))) val
   | PIsAuth v => Bool.eqb (q_auth rq) v
   | PCustom i => memN i (q_truth rq)
   | PThird i _ => memN i (q_truth rq)
@@ -312,6 +319,9 @@ Fixpoint vtypes_of (l : list text) : list vtype :=
 Definition find_view_types := vtypes_of find_view_type_names.
 Definition register_view_types := vtypes_of register_view_type_names.
 Definition unregister_view_types := vtypes_of unregister_view_type_names.
+(* view types unregistered before a single view is (re)registered: [] in the text before the
+   repair of C03-override-keeps-old-iface, (IView, ISecuredView) after it *)
+Definition override_unregister_types := vtypes_of override_unregister_view_type_names.
 
 Record slot := mkSlot { s_cls : N; s_req : N; s_ctx : N; s_name : text }.
 Definition slot_eqb (a b : slot) : bool :=
@@ -425,6 +435,9 @@ Definition reg_empty : registry := fun _ _ => None.
 Definition reg_set (R : registry) (s : slot) (vt : vtype) (c : option component) : registry :=
   fun s' vt' => if slot_eqb s s' && vtype_eqb vt vt' then c else R s' vt'.
 
+Definition unregister_all (R : registry) (s : slot) (vts : list vtype) : registry :=
+  fold_left (fun R vt => reg_set R s vt None) vts R.
+
 Fixpoint first_registered (R : registry) (s : slot) (vts : list vtype) : option component :=
   match vts with
   | [] => None
@@ -440,7 +453,8 @@ Definition register_view (accept_order : list text) (R : registry) (v : reg) : r
   let want_multiview :=
     is_multiview || (match old with Some _ => true | None => false end && negb (text_eqb old_phash (r_phash v))) in
   if negb want_multiview then
-    reg_set R s (if r_secured v then ISecuredView else IView) (Some (CView v))
+    reg_set (unregister_all R s override_unregister_types) s
+            (if r_secured v then ISecuredView else IView) (Some (CView v))
   else
     let multiview :=
       match old with
@@ -449,8 +463,7 @@ Definition register_view (accept_order : list text) (R : registry) (v : reg) : r
       | None => mv_empty       (* unreachable: want_multiview implies old is not None *)
       end in
     let multiview := mv_add multiview v (r_order v) (r_phash v) (r_accept v) (Some accept_order) in
-    let R' := fold_left (fun R vt => reg_set R s vt None) unregister_view_types R in
-    reg_set R' s IMultiView (Some (CMulti multiview)).
+    reg_set (unregister_all R s unregister_view_types) s IMultiView (Some (CMulti multiview)).
 
 Definition register_all (accept_order : list text) (regs : list reg) : registry :=
   fold_left (register_view accept_order) regs reg_empty.
@@ -556,10 +569,20 @@ Definition ok_by (ms : reg -> reg -> bool) (cls : N) (regs : list reg) (rq : req
   | _ => match winners_by ms cls regs rq with [] => true | _ => false end
   end.
 
+(* a later registration for the same slot with the same predicates replaces the earlier one *)
+Definition same_registration (a b : reg) : bool :=
+  slot_eqb (r_slot a) (r_slot b)
+  && texts_eqb (map pred_phash (r_preds a)) (map pred_phash (r_preds b)).
+Fixpoint effective (l : list reg) : list reg :=
+  match l with
+  | [] => []
+  | v :: r => if existsb (same_registration v) r then effective r else v :: effective r
+  end.
+
 Definition spec_winners (cls : N) (regs : list reg) (rq : request) : list reg :=
-  winners_by (more_specific rq) cls regs rq.
+  winners_by (more_specific rq) cls (effective regs) rq.
 Definition spec_ok (cls : N) (regs : list reg) (rq : request) (res : result) : bool :=
-  ok_by (more_specific rq) cls regs rq res.
+  ok_by (more_specific rq) cls (effective regs) rq res.
 
 (* the same order with the one amendment the code makes (deviation C03-accept-first): inside a
    slot, a view registered with accept= whose offer the request accepts is tried before every
@@ -590,8 +613,8 @@ Definition more_specific_media (rq : request) (regs : list reg) (a b : reg) : bo
       | None, Some _ => false
       | None, None => Nat.ltb (n_preds b) (n_preds a)
       end).
-Definition spec_ok_media (cls : N) (regs : list reg) (rq : request) (res : result) : bool :=
-  ok_by (more_specific_media rq regs) cls regs rq res.
+Definition winners_media (cls : N) (regs : list reg) (rq : request) : list reg :=
+  winners_by (more_specific_media rq regs) cls regs rq.
 
 (* ------------------------------------------------------------------ *)
 (* wire glue *)
@@ -682,7 +705,8 @@ Fixpoint live_regs (l : list reg) : list reg :=
 
 (* case = [extra predicate names; [view_args ...]; [request ...]]
    answer = [[made ...]; [[result; spec winners (tags); winners with the accept amendment;
-   the same after dropping registrations overwritten by a later one of equal (slot, phash); spec_ok of the model's result] per request]] *)
+   the same after dropping registrations overwritten by a later one of equal (slot, phash);
+   the same over all registrations, overridden ones included; spec_ok of the model's result] per request]] *)
 Definition run_C03 (v : val) : val :=
   ret_or_bad (
     match v with
@@ -699,9 +723,9 @@ Definition run_C03 (v : val) : val :=
                              let res := call_view R view_classifier rq in
                              VL [put_result res;
                                  put_tags (spec_winners view_classifier regs rq);
-                                 put_tags (winners_by (more_specific_media rq regs) view_classifier regs rq);
-                                 put_tags (winners_by (more_specific_media rq (live_regs regs))
-                                                      view_classifier (live_regs regs) rq);
+                                 put_tags (winners_media view_classifier (effective regs) rq);
+                                 put_tags (winners_media view_classifier (live_regs regs) rq);
+                                 put_tags (winners_media view_classifier regs rq);
                                  vbool (spec_ok view_classifier regs rq res)]) reqs)])
     | _ => None
     end).
